@@ -262,7 +262,7 @@ def _run_chunk(args):
         return 124, [], "TIMEOUT"
 
 
-def run_harness(sub, lines, env=None, exe=None, chunk=None, timeout=600, isolate=False):
+def run_harness(sub, lines, env=None, exe=None, chunk=None, timeout=240, isolate=False):
     """Run the Go harness on case lines, in parallel chunks.  If a worker dies (process crash) the
     chunk is bisected down to the single input, which gets the observable CRASH:<stderr tail>."""
     exe = exe or os.path.join(BUILD, "harness")
@@ -276,9 +276,10 @@ def run_harness(sub, lines, env=None, exe=None, chunk=None, timeout=600, isolate
     jobs = [(i, lines[i:i + chunk]) for i in range(0, n, chunk)]
     res = [None] * n
 
-    def work(job):
+    def work(job, tmo=None):
         i0, ls = job
-        rc, out, err = _run_chunk((exe, sub, ls, env, timeout))
+        tmo = tmo or timeout
+        rc, out, err = _run_chunk((exe, sub, ls, env, tmo))
         if rc == 0 and len(out) == len(ls):
             return [(i0 + k, out[k]) for k in range(len(ls))]
         if rc == 3 and out and len(out) <= len(ls) and out[-1].startswith("HANG"):
@@ -289,7 +290,9 @@ def run_harness(sub, lines, env=None, exe=None, chunk=None, timeout=600, isolate
             tag = "TIMEOUT" if rc == 124 else "CRASH"
             return [(i0, tag + ":" + hx(err[-600:]))]
         mid = len(ls) // 2
-        return work((i0, ls[:mid])) + work((i0 + mid, ls[mid:]))
+        # a worker that hung is searched with a shrinking time budget, so that a dead-locked harness cannot stall the check for long
+        nxt = max(20, tmo // 2) if rc == 124 else tmo
+        return work((i0, ls[:mid]), nxt) + work((i0 + mid, ls[mid:]), nxt)
 
     with cf.ThreadPoolExecutor(max_workers=NCPU) as ex:
         for part in ex.map(work, jobs):
